@@ -134,19 +134,19 @@ ObsClauses(st, rm, d, S, post, o0, o1, iss) ==
   IN FailNames(<<
       \* ---- exact conformance with the block machine (drift, not a verdict) ----
       <<"bind.exc",    P.exc = S.exc>>,
-      <<"bind.report", P.pages = S.pages /\ P.created = S.created>>,
+      <<"bind.report", S.exc # "" \/ (P.pages = S.pages /\ P.created = S.created)>>,   \* a request that raised returned no report
       <<"bind.trie",   P.st.trie = post.trie>>,
       <<"bind.links",  P.st.ls = post.ls>>,
       <<"bind.hdr",    P.st.lastId = post.lastId>>,
       <<"bind.wlog",   WriteOrder(P.st.wlog) = WriteOrder(S.w)>>,
-      <<"bind.refine", R.exc = P.exc /\ R.created = P.created /\ R.pages = P.pages
+      <<"bind.refine", R.exc = P.exc /\ (R.exc # "" \/ (R.created = P.created /\ R.pages = P.pages))
                        /\ R.A.pages = PagesOf(P.st.trie) /\ R.A.we = WeOfBlocks(P.st.trie)>>,
       \* ---- C01 page set fidelity ----
       <<"C01.pages",   R.A.pages = PSet(o1)>>,
       <<"C01.nodup",   Len(o1.pages) = Cardinality(PSet(o1))>>,
       <<"C01.crawled", R.A.crawled = CSet(o1)>>,
       <<"C01.counts",  o1.npages = Cardinality(PSet(o1)) /\ o1.ncrawled = Cardinality(CSet(o1))>>,
-      <<"C01.report",  R.pages = S.pages>>,
+      <<"C01.report",  S.exc # "" \/ R.pages = S.pages>>,
       \* ---- C03 link multigraph ----
       <<"C03.out",     R.A.links = OutT(o1)>>,
       <<"C03.in",      { e \in R.A.links : e[1] # e[2] } = InT(o1)>>,
@@ -159,9 +159,9 @@ ObsClauses(st, rm, d, S, post, o0, o1, iss) ==
       <<"C04.refuse",  (R.exc = "TraphException") = (S.exc = "TraphException")>>,
       <<"C04.function", Cardinality({ e[1] : e \in WSet(o1) }) = Cardinality(WSet(o1))>>,
       \* ---- C06 automatic creation ----
-      <<"C06.created", Len(R.created) = Len(S.created)
+      <<"C06.created", S.exc # "" \/ (Len(R.created) = Len(S.created)
                        /\ { <<c.id, SeqToSet(c.prefixes)>> : c \in SeqToSet(R.created) }
-                          = { <<c.id, SeqToSet(c.prefixes)>> : c \in SeqToSet(S.created) }>>,
+                          = { <<c.id, SeqToSet(c.prefixes)>> : c \in SeqToSet(S.created) })>>,
       <<"C06.exc",     R.exc = S.exc>>,
       \* ---- C12 ids ----
       <<"C12.fresh",   \A j \in 1..Len(S.created) : S.created[j].id > (IF S.reset THEN 0 ELSE iss)>>,
